@@ -410,8 +410,13 @@ opt-level = 0
             f, ent = render(e)
             fns.append("// twin %d\n%s" % (e[0], f))
             ents.append(ent)
-        src = ("// generated by gen/big.py — do not edit\n#![allow(unused_imports, unused_mut, unused_variables, unused_parens, unused_braces, clippy::all)]\n#![recursion_limit = \"1024\"]\n"
-               "use join::*;\nuse vrt::zoo::*;\n\n" + "\n".join(fns) +
+        body = "\n".join(fns)
+        if si % 2 == 1:
+            from zoo import shadow_wrap
+            body = shadow_wrap(body)
+            ents = [e.replace('tags: "', 'tags: "shadowed,', 1) for e in ents]
+        src = ("// generated by gen/big.py — do not edit\n#![allow(unused_imports, unused_mut, unused_variables, unused_parens, unused_braces, dead_code, clippy::all)]\n#![recursion_limit = \"1024\"]\n"
+               "use join::*;\nuse vrt::zoo::*;\nuse futures as fx;\n\n" + body +
                "\n\npub static TWINS: &[Twin] = &[\n    " + ",\n    ".join(ents) + "\n];\n\nfn main() {\n    vrt::zoo::main(TWINS);\n}\n")
         with open(os.path.join(outdir, "src", "bin", "big_%s_%02d.rs" % (tag, si)), "w") as f:
             f.write(src)
